@@ -84,6 +84,8 @@ def acceptEvent (c : Cfg) (xs : List (Outcome Nat Nat)) (tail : Option Nat)
     match want with
     | none => none
     | some w =>
+      -- a finished stream answers every further next() with StopIteration and nothing else
+      if ev = "E" && s.isFinal && delivered = s.out.length then some (s, delivered) else
       let rec go2 (fuel : Nat) (s : PS Nat Nat) : Option (PS Nat Nat) :=
         if delivered < s.out.length then
           if s.out[delivered]? = some w then some s else none
